@@ -51,12 +51,16 @@ def plan(tier, seed):
         cmds += ["exhaustive 4 all 6 %d" % seed, "exhaustive 5 3 7 %d" % seed, "exhaustive 6 1 7 %d" % seed]
         cmds += ["random 150 %d 30" % (seed * 100 + i) for i in range(2)]
         cmds += ["builder 3000 %d" % seed, "vm 4 4", "state 1500 %d" % seed]
+        cmds += ["vmgen 350 %d 5" % (seed * 100 + i) for i in range(4)]
+        cmds += ["prog 25000 %d 7" % (seed * 100 + i) for i in range(4)]
         bounds = "all forests with <= 4 nodes over rules {a,b} x tags {none,t0} (3 labelings for 5 nodes, 1 for 6); DFS depth 6-7"
     else:
         cmds = ["exhaustive %d all 8 %d" % (n, seed) for n in (0, 1, 2, 3, 4)]
         cmds += ["exhaustive 5 16 8 %d" % seed, "exhaustive 6 4 8 %d" % seed, "exhaustive 7 1 7 %d" % seed]
         cmds += ["random 1500 %d 40" % (seed * 100 + i) for i in range(6)]
         cmds += ["builder 60000 %d" % seed, "vm 6 5"] + ["state 10000 %d" % (seed * 100 + i) for i in range(4)]
+        cmds += ["vmgen 2500 %d 6" % (seed * 100 + i) for i in range(6)]
+        cmds += ["prog 400000 %d 7" % (seed * 100 + i) for i in range(6)]
         bounds = "all forests with <= 4 nodes over rules {a,b} x tags {none,t0} (16 labelings for 5 nodes, 4 for 6, 1 for 7); DFS depth 7-8"
     return cmds, bounds
 
@@ -69,13 +73,12 @@ def harness_build_min(timeout=900):
     d = "/tmp/pvharness-c04min-%s" % tag
     os.makedirs(os.path.join(d, "src", "bin"), exist_ok=True)
     repo = REPO.rstrip("/")
-    toml = ('[package]\nname = "pvharness"\nversion = "0.0.0"\nedition = "2021"\npublish = false\n\n[workspace]\n\n[dependencies]\n'
+    toml = ('[package]\nname = "pvharness"\nversion = "0.0.0"\nedition = "2021"\npublish = false\n\n[workspace]\n\n[features]\ndefault = ["meta"]\nmeta = []\n\n[dependencies]\n'
             'pest = { path = "%s/pest", features = ["pretty-print"] }\npest_meta = { path = "%s/meta" }\npest_vm = { path = "%s/vm" }\n\n'
             '[profile.release]\nopt-level = 2\noverflow-checks = true\ndebug-assertions = true\npanic = "unwind"\ndebug = false\n' % (repo, repo, repo))
     write_if_changed(os.path.join(d, "Cargo.toml"), toml)
-    lib = open(os.path.join(HARNESS, "src", "lib.rs")).read()
-    lib = "\n".join(l for l in lib.split("\n") if not re.match(r"\s*pub mod ", l))   # helper modules of other properties are not needed
-    write_if_changed(os.path.join(d, "src", "lib.rs"), lib)
+    for f in ("lib.rs", "prog.rs", "gram.rs"):
+        write_if_changed(os.path.join(d, "src", f), open(os.path.join(HARNESS, "src", f)).read())
     write_if_changed(os.path.join(d, "src", "bin", "c04.rs"), open(os.path.join(HARNESS, "src", "bin", "c04.rs")).read())
     sh("cp %s %s" % (os.path.join(REPO, "Cargo.lock"), os.path.join(d, "Cargo.lock")))
     tdir = "/tmp/pvtarget-c04min-%s" % tag
@@ -229,8 +232,21 @@ def run(tier, seed, replay=None):
                            "label": label, "impl": val, "model": worst["expected"], "searched": stats},
                           no_failing_input=True)
         elif kind == "wfq":
-            res.violation("the token stream of a successful parse is not a well-formed queue: %s" % worst["case"],
-                          {"theorem_or_correspondence": "C04 first sentence: wfqb on a real parse result", "case": worst["case"],
+            src = worst["case"].split("|", 5)[-1].split("#")[0]
+            inp = worst["case"].split("|", 5)[4] if worst["case"].count("|") >= 5 else ""
+            what = src
+            if src.startswith("vg:"):
+                try:
+                    what = "pest_vm grammar `%s`, start rule r0" % bytes.fromhex(src[3:]).decode("utf-8").strip().replace("\n", " ")
+                except ValueError:
+                    pass
+            elif src.startswith("pp:"):
+                what = "ParserState closure tree %s" % src[3:]
+            raw = worst["case"].rsplit("#", 1)[-1]
+            res.violation("a SUCCESSFUL parse returned a token stream that is not a well-formed queue (wfqb = false; %d such parses): %s on input `%s` "
+                          "yields %s" % (stats.get("wfq/other", len(ms)), what, inp, raw[:300]),
+                          {"theorem_or_correspondence": "C04 first sentence (exec_preserves_wfq): extracted wfqb on the token queue of a real parse result",
+                           "case": worst["case"], "source": what, "input": inp, "token_stream": raw,
                            "impl": worst["impl"], "spec": worst["expected"]})
         elif kind == "thm":
             res.violation("extracted machines disagree with the extracted list machine on a well-formed queue (contradicts the proved refinement: "
@@ -256,7 +272,11 @@ def run(tier, seed, replay=None):
         "distinct_nontrivial": stats.get("distinct_nontrivial", 0),
         "rule": bounds + "; random PairsBuilder forests of 5-30/40 nodes with random scripts over next/next_back/len/peek of length <= 40; "
                 "random PairsBuilder call sequences incl. bad spans and tag-before-rule; pest_vm parses of 5 small grammars on all inputs up to a "
-                "length bound; random ParserState closure trees (rule/sequence/repeat/optional/lookahead/tag_node). One evaluation = one tree with the "
+                "length bound; pest_vm on GENERATED grammars (3-5 rules of all five types calling each other, nested positive/negative look-aheads "
+                "around rule references, repetitions with a trailing mismatch, choices whose first alternative fails late, !{}/${} inside @{}, "
+                "token-emitting WHITESPACE/COMMENT) on all inputs up to length 5/6 over {x,y,space}, one case per distinct token stream; random "
+                "ParserState closure trees: own generator (rule/sequence/repeat/optional/lookahead/tag_node) and pvharness::prog::gen plus a token-"
+                "oriented generator (depth <= 7; the REAL queue incl. cross-links is read with verif_dump and checked with the extracted wfqb). One evaluation = one tree with the "
                 "full observation (per-pair views, and per Pairs value - root, every into_inner, every single - the DFS on Pairs/FlatPairs/Tokens, the "
                 "canonical-state string views, find_tagged). non-trivial = distinct case whose forest has nesting depth >= 2 and a sibling list of "
                 "length >= 2 (builder), >= 3 pairs (parses), >= 2 calls (call sequences)",
@@ -268,6 +288,7 @@ def run(tier, seed, replay=None):
         "mismatches": len(mism),
         "implementation_state": fl,
         "build_note": build_note,
+        "real_parses": {k: stats.get(k, 0) for k in ("grammars", "rejected", "parses", "ok_parses", "programs_tried", "ok_runs")},
         "classes": {k: v for k, v in stats.items() if "/" in str(k)},
     })
     res.assumptions = ["input alphabet of the differential runs: x y U+00E9 U+4F60 newline double-quote space ( ) - the theorems are for arbitrary byte strings",
